@@ -36,6 +36,8 @@ class Models:
         models_async.register(self)
         from . import models_iter
         models_iter.register(self)
+        from . import models_store
+        models_store.register(self)
 
     def reg(self, *keys):
         def deco(f):
@@ -514,13 +516,18 @@ def register_core(M):
         ex.write_path(cell, path, M.none(dty))
         return o
 
-    @reg('Option::then', 'bool::then')
+    @reg('Option::unwrap_or_default')
+    def _(ex, info, a, dty):
+        o = ex.materialize(a[0])
+        return M.payload(ex, o, fty=dty) if M.is_some(ex, o) else M.default_value(ex, dty)
+
+    @reg('Option::then', 'bool::then', '<impl>::then')
     def _(ex, info, a, dty):
         if ex.branch(a[0]):
             return M.some(dty, ex.call_value(a[1], []))
         return M.none(dty)
 
-    @reg('Option::then_some', 'bool::then_some')
+    @reg('Option::then_some', 'bool::then_some', '<impl>::then_some')
     def _(ex, info, a, dty):
         return M.some(dty, a[1]) if ex.branch(a[0]) else M.none(dty)
 
@@ -553,6 +560,34 @@ def register_core(M):
         if M.is_some(ex, o):
             return Obj('iter', items=(Ref(cell, path + (('f', 1, 0, M.opt_payload_ty(o.ty)),)),), ty=dty)
         return Obj('iter', items=(), ty=dty)
+
+    # ------------------------------------------------------------ `?` operator
+    @reg('Try::branch')
+    def _(ex, info, a, dty):
+        o = ex.materialize(a[0], info['self_ty'])
+        h = head(info['self_ty'] or (o.ty if isinstance(o, Adt) else ''))
+        d = M.discr(ex, o)
+        if h == 'Option':
+            if ex.branch(d == bv(1)):
+                return Adt(dty or 'ControlFlow<?>', {(0, 0): M.payload(ex, o, fty=M.opt_payload_ty(info['self_ty'] or ''))}, 0, None)
+            return Adt(dty or 'ControlFlow<?>', {(1, 0): M.none('Option<Infallible>')}, 1, None)
+        if h == 'Result':
+            g = generic_args(info['self_ty'] or '')
+            if ex.branch(d == bv(0)):
+                return Adt(dty or 'ControlFlow<?>', {(0, 0): ex.field_of(o, 0, 0, g[0] if g else '?')}, 0, None)
+            res = Adt('Result<Infallible, E>', {(1, 0): ex.field_of(o, 1, 0, g[1] if len(g) > 1 else '?')}, 1, None)
+            return Adt(dty or 'ControlFlow<?>', {(1, 0): res}, 1, None)
+        raise Inconclusive('Try::branch on %s' % info['self_ty'])
+
+    @reg('FromResidual::from_residual')
+    def _(ex, info, a, dty):
+        h = head(info['self_ty'] or dty or '')
+        if h == 'Option':
+            return M.none(dty)
+        if h == 'Result':
+            r = ex.materialize(a[0])
+            return Adt(dty, {(1, 0): ex.field_of(r, 1, 0, '?')}, 1, None)
+        raise Inconclusive('from_residual on %s' % info['self_ty'])
 
     # ------------------------------------------------------------ Result
     @reg('Result::is_err')
@@ -607,6 +642,9 @@ def register_core(M):
             return v
         if st in ('Vec', 'String', 'PathBuf'):
             return v          # &Vec<T> -> &[T]: same object
+        if st == 'MutexGuard':
+            g = ex.materialize(M.load(ex, a[0]))
+            return g.fields[(None, 0)]
         if st in ('Arc', 'Box', 'Rc', 'Pin'):
             cell, path = ex.deref(a[0])
             cell, path = ex.deref(ex.read_path(cell, path), info['self_ty'])
@@ -627,6 +665,17 @@ def register_core(M):
             body = ex.prog.resolve(info)
             if body is not None:
                 return ex.call_body(body, a)
+            if info['key'] == 'Into::into' and info.get('trait'):
+                tg = generic_args(info['trait'])
+                if tg:
+                    i2 = dict(info)
+                    i2.update({'text': '<%s as From<%s>>::from' % (tg[0], info['self_ty']), 'self_ty': tg[0],
+                               'trait': 'From<%s>' % info['self_ty'], 'method': 'from', 'key': 'From::from'})
+                    cands = [b for (t, b) in ex.prog.by_method.get((head(tg[0]), 'from'), []) if t == 'From']
+                    src = head(info['self_ty'] or '')
+                    cands = [b for b in cands if head(b.params[0][1]) == src]
+                    if len(cands) == 1:
+                        return ex.call_body(cands[0], a)
             s, d = (info['self_ty'] or ''), (dty or '')
             if info['key'] == 'From::from' and head(d) in ('Arc', 'Box'):
                 return Ref(Cell(a[0]), (), pid=bv(0x6000000000000000 + Cell._n * 64))
@@ -683,6 +732,31 @@ def register_core(M):
             return z3.If(z3.UGT(x, y), x, y)
         return z3.If(z3.ULT(x, y), x, y)
 
+    @reg('Duration::checked_sub')
+    def _(ex, info, a, dty):
+        x, y = ex.materialize(a[0]), ex.materialize(a[1])
+        if ex.branch(z3.UGE(x, y)):
+            return M.some(dty, x - y)
+        return M.none(dty)
+
+    @reg('Instant::elapsed')
+    def _(ex, info, a, dty):
+        # time elapsed since `instant`: any value (the clock is symbolic); recorded for the harness
+        inst = ex.materialize(M.load(ex, a[0]))
+        e = ex.fresh('elapsed', BV64)
+        ex.env.setdefault('elapsed', []).append((inst, e))
+        return e
+
+    @reg('Instant::now')
+    def _(ex, info, a, dty):
+        t = ex.fresh('now', BV64)
+        last = ex.env.get('clock')
+        if last is not None:
+            ex.add(z3.UGE(t, last))
+        ex.env['clock'] = t
+        ex.env.setdefault('now_calls', []).append(t)
+        return t
+
     @reg('<impl>::checked_sub')
     def _(ex, info, a, dty):
         x, y = a
@@ -720,6 +794,15 @@ def register_core(M):
         if body is not None:
             return ex.call_body(body, a)
         st = (info['self_ty'] or '').strip()
+        try:
+            sh = M.shape(st)
+        except Inconclusive:
+            sh = None
+        if sh is not None and sh[0] in ('s', 'opt', 'tuple', 'cenum', 'unit') and 'ptr' not in repr(sh):
+            x = M.flatten(ex, M.load(ex, a[0]), sh)
+            y = M.flatten(ex, M.load(ex, a[1]), sh)
+            r = z3.And(*[p == q for p, q in zip(x, y)]) if x else z3.BoolVal(True)
+            return r if info['method'] == 'eq' else z3.Not(r)
         if re.sub(r'[&\s]', '', st) in ('std::string::String', 'String', 'str'):
             r = M.str_eq(ex, info, a, dty)
             return r if info['method'] == 'eq' else z3.Not(r)
@@ -781,6 +864,12 @@ def _default_value(self, ex, ty):
         return self.none(t)
     if h == 'Vec':
         return Obj('vec', items=(), ty=t)
+    if h == 'HashMap':
+        g = generic_args(t)
+        return self.new_assoc(g[0] if g else '?', g[1] if len(g) > 1 else '?')
+    te = tuple_elems(t)
+    if te is not None:
+        return Adt(t, {(None, i): self.default_value(ex, x) for i, x in enumerate(te)})
     raise Inconclusive('Default for %s' % t)
 
 
